@@ -35,10 +35,14 @@ class BuildInfo:
         self.tables_changed = False
         self.translation_error = None
         self.failed_file = None
+        self.failed_files = []
+        self.stages = []         # every stage that failed
+        self.tokrules_changed = False
 
     def to_json(self):
         return {'ok': self.ok, 'failed_stage': self.stage, 'failed_file': self.failed_file,
-                'tables_rewritten': self.tables_changed,
+                'failed_files': self.failed_files, 'failed_stages': self.stages,
+                'tables_rewritten': self.tables_changed, 'tokrules_rewritten': self.tokrules_changed,
                 'translation_error': self.translation_error, 'log_tail': self.log[-1500:]}
 
 
@@ -60,6 +64,7 @@ def build_all(jobs=None):
         if rc != 0:
             info.ok = False
             info.stage = 'translate-tables'
+            info.stages.append('translate-tables')
             m = re.search(r'TRANSLATION-FAILED: (.*)', out)
             info.translation_error = m.group(1) if m else out[-300:]
             # keep going with the previous Tables.v if there is one, so that
@@ -67,7 +72,21 @@ def build_all(jobs=None):
             if not os.path.exists(os.path.join(COQ, 'theories', 'Model', 'Tables.v')):
                 return info
         info.tables_changed = 'rewritten' in out
-        if not os.path.exists(os.path.join(COQ, 'Makefile')):
+        # the tokenizer rules, translated from the AST of TexSoup/tokens.py
+        # (harness/gen_tokrules.py, fail-closed) into the DSL of Model/TokDSL.v
+        tokgen = os.path.join(COQ, 'theories', 'Model', 'TokGen.v')
+        rc, out = sh([PY, os.path.join(VERIF, 'harness', 'gen_tokrules.py'), tokgen], env=env)
+        info.log += out
+        if rc != 0:
+            info.ok = False
+            info.stage = info.stage or 'translate-tokrules'
+            info.stages.append('translate-tokrules')
+            m = re.search(r'TRANSLATION-FAILED: (.*)', out)
+            if info.translation_error is None:
+                info.translation_error = m.group(1) if m else out[-300:]
+        info.tokrules_changed = 'rewritten' in out
+        if (not os.path.exists(os.path.join(COQ, 'Makefile'))
+                or os.path.getmtime(os.path.join(COQ, 'Makefile')) < os.path.getmtime(os.path.join(COQ, '_CoqProject'))):
             rc, out = sh('coq_makefile -f _CoqProject -o Makefile', cwd=COQ)
             info.log += out
         rc, out = sh('timeout 1500 make -k -j%d' % (jobs or NPROC), cwd=COQ, timeout=1600)
@@ -75,13 +94,28 @@ def build_all(jobs=None):
         if rc != 0:
             info.ok = False
             info.stage = info.stage or 'coq-build'
-            m = re.search(r'File "\./([^"]+)", line (\d+)', out)
-            info.failed_file = m.group(1) if m else None
+            info.stages.append('coq-build')
+            fl = []
+            for m in re.finditer(r'File "\./([^"]+)", line (\d+)', out):
+                if m.group(1) not in fl:
+                    fl.append(m.group(1))
+            info.failed_files = fl
+            info.failed_file = fl[0] if fl else None
+            # a file that no longer compiles must not leave an older .vo
+            # behind for the files after it to load
+            for f in fl:
+                if f.endswith('.v'):
+                    for ext in ('o', 'os', 'ok'):
+                        try:
+                            os.remove(os.path.join(COQ, f + ext))
+                        except OSError:
+                            pass
         # the model files must have been built for the driver to be current
         model_ml = os.path.join(COQ, 'model.ml')
         if not os.path.exists(model_ml):
             info.ok = False
             info.stage = info.stage or 'extraction'
+            info.stages.append('extraction')
             return info
         need = (not os.path.exists(DRIVER)
                 or os.path.getmtime(DRIVER) < os.path.getmtime(model_ml)
@@ -95,6 +129,7 @@ def build_all(jobs=None):
             if rc != 0:
                 info.ok = False
                 info.stage = info.stage or 'driver-build'
+                info.stages.append('driver-build')
     finally:
         fcntl.flock(lock, fcntl.LOCK_UN)
         lock.close()
